@@ -224,6 +224,33 @@ func genHistory(r *rand.Rand, g *wsclient.Gen, seed int64) *history {
 			h.Steps = append(h.Steps, wsclient.Step{Kind: "echo", ID: pick(), Wait: r.Intn(2) == 0, PauseUS: pause(r)})
 		case x < 46:
 			h.Steps = append(h.Steps, wsclient.Step{Kind: "url", ID: pick(), PauseUS: pause(r)})
+		case x < 49: // an id shared by a slow mutation and a subscription: mutate X, unsubscribe X while it runs, subscribe X, end it
+			id := pick()
+			if live[id] != nil {
+				delete(live, id)
+				h.Steps = append(h.Steps, wsclient.Step{Kind: "unsub", ID: id, Wait: true})
+			}
+			h.Steps = append(h.Steps, wsclient.Step{Kind: "mutate", ID: id, Query: fmt.Sprintf("mutation { slowApply(op: %d, us: %d) }", g.NextOp(prefer()), 1500+r.Intn(3000)), PauseUS: 100 + r.Intn(600)})
+			h.Steps = append(h.Steps, wsclient.Step{Kind: "unsub", ID: id, Wait: r.Intn(2) == 0})
+			end := r.Intn(3)
+			if end == 2 {
+				h.Steps = append(h.Steps, boomSet(int64(1+r.Intn(wsclient.BoomShapes))))
+			}
+			st := newSub(id, end == 2)
+			st.Wait = true
+			h.Steps = append(h.Steps, st)
+			h.Collision = true
+			switch end {
+			case 0:
+				delete(live, id)
+				h.Steps = append(h.Steps, wsclient.Step{Kind: "echo", ID: "e", Wait: true, PauseUS: 500 + r.Intn(2000)}, wsclient.Step{Kind: "unsub", ID: id, Wait: true, PauseUS: pause(r)})
+			case 1:
+				h.Steps = append(h.Steps, wsclient.Step{Kind: "echo", ID: "e", Wait: true, PauseUS: 500 + r.Intn(2000)}, wsclient.Step{Kind: "close", Wait: true})
+				closed = true
+			default: // it ends by its own initial failure
+				delete(live, id)
+				h.Steps = append(h.Steps, wsclient.Step{Kind: "sync", PauseUS: 1000 + r.Intn(2000)}, boomSet(0))
+			}
 		case x < 54:
 			id := pick()
 			if live[id] != nil {
@@ -461,7 +488,7 @@ func TestCheck(t *testing.T) {
 	defer run.Finish()
 	run.Rule("histories over one websocket connection (scripted JSONSocket, recording SubscriptionLogger, WithMaxSubscriptions 2-4, 0-9 pass-through middlewares): 10-35 steps of subscribe / unsubscribe / mutate / echo / url / malformed envelopes with ids from a pool of 3 shared by ALL message types (plus fresh ids), undecodable frames, " +
 		"writes and invalidate-everything steps, resolver failures (initial and on re-run; plain, safe, and errors wrapping context.Canceled / DeadlineExceeded of a resolver-owned context; failing mutations), context cancellation, socket close at a random step (ReadJSON error) or through a failing WriteJSON, gate steps (a resolver of an in-flight run is held while an unsubscribe(+re-subscribe) / close / cancel / colliding mutate / subscribe lands), " +
-		"an unsubscribe-all / close sent a fraction of the write-then-read delay after a write that invalidates an idle subscription, a motif: the connection context is cancelled while a re-run is inside a context-honouring resolver; a motif: a successful subscription fails on a re-run (retry), then unsubscribes / recovers and unsubscribes / the connection closes, a failing-subscribe+unsubscribe+re-subscribe motif, unsubscribe+subscribe played while a closeSubscription call is held at its entry, writes injected at hook points; every subscription query carries a unique tag that its resolvers log and a field that creates a reactive.Resource with a Cleanup counter; some also select a live-query field that registers a counted Resource inside the public reactive.Cache and then fails (initially / transiently on re-runs). " +
+		"an unsubscribe-all / close sent a fraction of the write-then-read delay after a write that invalidates an idle subscription, a motif: a slow mutation with id X, unsubscribe X while it runs, subscribe X, then that subscription ends by unsubscribe / close / own failure; a motif: the connection context is cancelled while a re-run is inside a context-honouring resolver; a motif: a successful subscription fails on a re-run (retry), then unsubscribes / recovers and unsubscribes / the connection closes, a failing-subscribe+unsubscribe+re-subscribe motif, unsubscribe+subscribe played while a closeSubscription call is held at its entry, writes injected at hook points; every subscription query carries a unique tag that its resolvers log and a field that creates a reactive.Resource with a Cleanup counter; some also select a live-query field that registers a counted Resource inside the public reactive.Cache and then fails (initially / transiently on re-runs). " +
 		"reactive.WriteThenReadDelay is 0 in 2/5 of the histories and 0.5-3 ms in the rest. Every history ends with socket close, three invalidate-everything settle rounds and a quiescence wait. 8 pinned histories first; the last four are stress histories, each 1600 (thorough 6000) rounds of subscribe x4 / one write invalidating all / mutation + unsubscribe x4 pipelined at once, with a per-round timing jitter (Stop racing the wake-up of a re-run or of the initial run, under RerunImmediately contention). Non-trivial = the history has an end-by-close, an id collision or a failure. Distinct = step-kind sequence + end kinds of the instances.")
 	run.Assume("a subscription instance is a logger Subscribe call inside the handle window of a subscribe message; it ends at the first of: logger Unsubscribe(id), read-enter after its unsubscribe message, ServeJSONSocket returned")
 	run.Assume("Unsubscribe logger calls for ids of mutations (never subscribed) are tolerated")
